@@ -7,7 +7,7 @@ SPEC = {
     "allowed_axioms": [],
     "harness_pkg": "hx_update",
     "harness_bin": "c15",
-    "n": {"quick": 400, "thorough": 12000},
+    "n": {"quick": 300, "thorough": 12000},
     "harness_timeout": {"quick": 600, "thorough": 3000},
     "trusted_base": [
         "Coq 8.16.1 kernel + vm_compute (no native_compute); coqchk re-check in the thorough tier",
